@@ -29,3 +29,21 @@ FAMILIES["C01"].update(
                 "Compile/Eval, and every recorded call (enumerated and seeded-random deeper ones) is validated by TLC against the specification's Eval action, with the frame conditions evaluated on every step."),
     level_note=_SEM_NOTE,
 )
+
+FAMILIES["C02"] = dict(
+    g=[G("MC_C02", "MC_C02_quick.cfg", "MC_C02_thorough.cfg")],
+    v=[dict(profile="preds", n={"quick": 3000, "thorough": 60000})],
+    level_text=("The predicate rules F1-F7 (index rule with floor and negative wrap-around, boolean cast, per-step vs whole-path attachment, stacked vs nested shape) are TLA+ operators "
+                "(JEval!FilterItems/ApplyFilters). TLC enumerates array lengths 0..5 x positions -7..7 step 0.5 x literal/computed/array/document-supplied indexes x boolean predicates over mixed "
+                "elements x nine head shapes x stacking depth 1..2 (3 in thorough); every case is replayed into the real code and every recorded call validated by TLC."),
+    level_note=_SEM_NOTE,
+)
+
+FAMILIES["C03"] = dict(
+    g=[G("MC_C03", "MC_C03_quick.cfg", "MC_C03_thorough.cfg")],
+    v=[dict(profile="ops", n={"quick": 4000, "thorough": 80000})],
+    level_text=("The operator rules O1-O9 are a total TLA+ table (JEval!NumOpResult/CmpResult/Truthy/ConcatPart/Range/Cond) over exact rationals. TLC enumerates all 16 binary operators x 24 x 24 operand "
+                "kinds/values (numbers incl. 0, negatives, fractions; strings incl. empty, numeric-looking, non-ASCII; booleans; null; arrays; objects; functions; missing), each operand as a literal or an input member, "
+                "unary minus, the lazy conditional with a failing unchosen branch, range limits, exact dyadic arithmetic, and (thorough) the nested depth-2 fragment; every cell is replayed and validated."),
+    level_note=_SEM_NOTE + " IEEE-754 rounding of inexact intermediate results, subnormals, the sign of zero and magnitudes beyond 1e9 are outside the exact-rational model (DESIGN.md section 7).",
+)
